@@ -418,8 +418,10 @@ class Diff:
             return
         # K: an upper-case `U` prefix sets the `u` kind marker (the reference only does so for lower-case `u`)
         if path.endswith("Constant.kind") and r == "u" and p is None and parents:
-            pr = parents[-1][1].get("_r")
-            if pr and self.b[pr[0]:pr[0] + 1] == b"U":
+            # the literal's first byte, by the reference's extent or (inside an f-string field, where the reference
+            # locates sub-expressions by substring search) by this parser's own extent
+            rr, pr = parents[-1][0].get("_r"), parents[-1][1].get("_r")
+            if (pr and self.b[pr[0]:pr[0] + 1] == b"U") or ("FormattedValue" in path and rr and self.b[rr[0]:rr[0] + 1] == b"U"):
                 self.t("string-kind-u-for-uppercase-prefix", path, r, p)
                 return
         # K C07: escapes inside a format spec are kept verbatim (the reference decodes them)
